@@ -401,7 +401,14 @@ pub fn gen_plan(rng: &mut Rng, len: usize, cuts: &[usize], interrupts: u8) -> So
             for s in steps.iter().copied() {
                 let p = if interrupts == 1 { 12 } else { 5 };
                 if rng.chance(1, p) {
-                    let burst = if interrupts == 1 { 1 } else { 1 + rng.below(4) };
+                    // mostly short bursts, now and then a storm (a retry limit would show up)
+                    let burst = if interrupts == 1 {
+                        1
+                    } else if rng.chance(1, 12) {
+                        5 + rng.below(60)
+                    } else {
+                        1 + rng.below(4)
+                    };
                     for _ in 0..burst {
                         out.push(Step::Interrupted);
                     }
